@@ -3,8 +3,8 @@
 # Confirms one seeded change in its scratch worktree: demo fails with patch, existing tests pass with patch, demo passes without.
 # Writes /tmp/seed/<name>/OUT/<m>/confirm.json
 set -u
-n=$1; m=$2; dest=$3; pkg=$4
-d=/tmp/seed/$n; o=$d/OUT/$m
+n=$1; m=$2; dest=$3; pkg=$4; extra="${5:-}"
+d=/tmp/seed/CONFIRM; o=/tmp/seedout/$n/$m
 cd $d || exit 2
 git checkout -q -- . ; git clean -fdq -e OUT -e target -e Cargo.lock
 tname=$(basename $dest .rs)
@@ -21,12 +21,12 @@ PY
 demo=$(ls $o/*.rs | head -1)
 # 1. pristine demo passes
 cp $demo $dest
-if cargo test --offline -p $pkg --test $tname >$o/confirm_demo_pristine.log 2>&1; then res $o demo_pristine pass; else res $o demo_pristine FAIL; fi
+if cargo test --offline -p $pkg $extra --test $tname >$o/confirm_demo_pristine.log 2>&1; then res $o demo_pristine pass; else res $o demo_pristine FAIL; fi
 # 2. with patch: demo fails
 if ! git apply $o/patch.diff; then res $o apply FAIL; exit 1; fi
-if cargo test --offline -p $pkg --test $tname >$o/confirm_demo_patched.log 2>&1; then res $o demo_patched PASS_unexpected; else res $o demo_patched fail_as_expected; fi
+if cargo test --offline -p $pkg $extra --test $tname >$o/confirm_demo_patched.log 2>&1; then res $o demo_patched PASS_unexpected; else res $o demo_patched fail_as_expected; fi
 # 3. with patch: existing tests pass (demo removed)
 rm -f $dest
-if cargo test --offline -p $pkg --lib --tests >$o/confirm_suite_patched.log 2>&1; then res $o suite_patched pass; else res $o suite_patched FAIL; fi
+if cargo test --offline -p $pkg $extra --lib --tests >$o/confirm_suite_patched.log 2>&1; then res $o suite_patched pass; else res $o suite_patched FAIL; fi
 git checkout -q -- . ; git clean -fdq -e OUT -e target -e Cargo.lock
 cat $o/confirm.json
